@@ -3,13 +3,21 @@ import PynguinModel.Model.Slice
 # C09 — PyMini: the supported language fragment and its tracing interpreter
 
 A structured fragment of Python (int locals / parameters, module globals, assignment, `if/else`,
-`while`, calls of module functions that end in `return e`) together with a test case in pynguin's
-shape (`int_k = <const>` / `int_k = module.f(int_i, …)`, optional `assert int_k == …`).
+`while`, calls of module functions that end in `return e`, **classes**: class-level attribute
+defaults, `__init__`, methods reading / writing `self.a<i>`, calls `self.m(...)`, and **void**
+functions / methods, which end in the implicit `return None` carried by their last statement's line)
+together with a test case in pynguin's shape (`int_k = <const>` / `int_k = module.f(int_i, …)` /
+`obj_k = module.C(int_i, …)` / `x_k = obj_j.m(int_i, …)` / `int_k = obj_j.a<i>`, optional
+`assert int_k == …`).
 `run` executes a program and emits one `Slice.Ev` per executed statement-level step, i.e. the
 *execution trace* the slicer of `Model/Slice.lean` works on:
 
 * variables are keyed by the **frame instance** (exact dynamic data dependence); `codeOf` recovers
   the code object of a frame, which is what pynguin's slicer keys local variables by;
+* attributes are keyed by the **object** (`objScope`), class-level defaults by the class (`clsScope`);
+  an object's reference is the pseudo variable `refName` of its scope (defined by its creation);
+* the positions of the executed implicit `return None` steps are recorded (`retNone`): that is what
+  `_cleanse_included_implicit_return_none` of `ga/checked_coverage.py` looks at;
 * `anc` are the executed branch nodes (frame-qualified) whose region contains the statement, plus
   the node of the call that created the frame (interprocedural control dependence).
 
@@ -24,11 +32,17 @@ inductive BinOp | add | sub | mul | mod
 inductive CmpOp | lt | le | eq | ne | gt | ge
   deriving DecidableEq, Repr
 
+/-- The object an attribute access / method call goes through: `self` (inside a method) or a local
+holding an object (the test case's `obj_k`). -/
+inductive Recv | self | l (i : Nat)
+  deriving DecidableEq, Repr
+
 inductive Expr
   | k (n : Int)
   | l (i : Nat)            -- local / parameter
   | g (i : Nat)            -- module global
   | bin (op : BinOp) (a b : Expr)
+  | at (r : Recv) (i : Nat)   -- `<r>.a<i>`
   deriving Repr
 
 structure Cond where
@@ -37,7 +51,7 @@ structure Cond where
   b : Expr
   deriving Repr
 
-inductive Tgt | l (i : Nat) | g (i : Nat)
+inductive Tgt | l (i : Nat) | g (i : Nat) | at (r : Recv) (i : Nat)
   deriving Repr
 
 inductive Stmt
@@ -45,21 +59,40 @@ inductive Stmt
   | ite (ln : Nat) (c : Cond) (a b : List Stmt)
   | wh (ln : Nat) (c : Cond) (a : List Stmt)
   | call (ln : Nat) (tg : Tgt) (f : Nat) (args : List Expr)
+  /-- `[tg =] <r>.m<f>(args)`; `tg = none`: expression statement (result dropped) -/
+  | mcall (ln : Nat) (tg : Option Tgt) (r : Recv) (f : Nat) (args : List Expr)
+  /-- `tg = C<c>(args)`: object creation, runs `__init__` when the class has one -/
+  | new (ln : Nat) (tg : Tgt) (c : Nat) (args : List Expr)
 
+/-- A module function (`cls = 0`) or a method of class `cls - 1` (first parameter `self`, not counted
+in `np`).  `void`: no `return` statement — the implicit `return None` sits on line `retLn`, the line
+of the last statement of the body; `ret` is ignored. -/
 structure Fun where
   defLn : Nat
   np : Nat
   body : List Stmt
   retLn : Nat
   ret : Expr
+  void : Bool
+  cls : Nat
+
+/-- `class C<c>:` with class-level defaults `a<i> = n` as (line, i, n) and optionally `__init__`. -/
+structure Cls where
+  ln : Nat
+  defaults : List (Nat × Nat × Int)
+  init : Option Nat                      -- index of `__init__` in `Prog.funs`
 
 inductive TStmt
   | const (n : Int)                      -- int_k = n
-  | call (f : Nat) (args : List Nat)     -- int_k = module.f(int_a, …)
+  | call (f : Nat) (args : List Nat)     -- x_k = module.f(int_a, …)   (None for a void function)
+  | new (c : Nat) (args : List Nat)      -- obj_k = module.C<c>(int_a, …)
+  | mcall (o : Nat) (f : Nat) (args : List Nat)   -- x_k = obj_o.m<f>(int_a, …)
+  | attr (o : Nat) (i : Nat)             -- int_k = obj_o.a<i>
 
 structure Prog where
   ginit : List (Nat × Nat × Int)         -- module level `G<i> = n` as (line, i, n)
   funs : List Fun
+  classes : List Cls
   test : List TStmt
   asserts : List Nat                     -- statements followed by `assert int_k == …`
 
@@ -67,12 +100,20 @@ abbrev Env := List (Nat × Int)
 
 def lookup (env : Env) (i : Nat) : Int := ((env.find? (·.1 == i)).map (·.2)).getD 0
 def update (env : Env) (i : Nat) (v : Int) : Env := (i, v) :: env.filter (·.1 != i)
+def has (env : Env) (i : Nat) : Bool := env.any (·.1 == i)
 
 def globalScope : Nat := 0
 def mainFrame : Nat := 1
 def retName : Nat := 9999
+def selfName : Nat := 9998
+def refName : Nat := 9997
 def nodeOf (frame ln : Nat) : Nat := frame * 65536 + ln
 def callNode (frame : Nat) : Nat := frame * 65536
+/-- Scope of the attributes (and of the reference `refName`) of object `o` (objects are numbered from 1). -/
+def objScope (o : Nat) : Nat := 1000000 + o
+/-- Scope of the class-level defaults of class `c`. -/
+def clsScope (c : Nat) : Nat := 2000000 + c
+def attrKey (o i : Nat) : Nat := o * 64 + i
 
 def evalBin : BinOp → Int → Int → Int
   | .add, a, b => a + b
@@ -88,133 +129,268 @@ def evalCmp : CmpOp → Int → Int → Bool
   | .gt, a, b => a > b
   | .ge, a, b => a ≥ b
 
-def eval (env gl : Env) : Expr → Int
+/-- `hp r i` = current value of `<r>.a<i>`. -/
+def eval (env gl : Env) (hp : Recv → Nat → Int) : Expr → Int
   | .k n => n
   | .l i => lookup env i
   | .g i => lookup gl i
-  | .bin op a b => evalBin op (eval env gl a) (eval env gl b)
+  | .bin op a b => evalBin op (eval env gl hp a) (eval env gl hp b)
+  | .at r i => hp r i
 
-def varsOf (frame : Nat) : Expr → List Var
+def recvVar (frame : Nat) : Recv → Var
+  | .self => ⟨frame, selfName⟩
+  | .l i => ⟨frame, i⟩
+
+/-- `av r i` = the location `<r>.a<i>` is read from (instance attribute or class default). -/
+def varsOf (frame : Nat) (av : Recv → Nat → Var) : Expr → List Var
   | .k _ => []
   | .l i => [⟨frame, i⟩]
   | .g i => [⟨globalScope, i⟩]
-  | .bin _ a b => varsOf frame a ++ varsOf frame b
+  | .bin _ a b => varsOf frame av a ++ varsOf frame av b
+  | .at r i => [recvVar frame r, av r i]
 
-def condVars (frame : Nat) (c : Cond) : List Var := varsOf frame c.a ++ varsOf frame c.b
+def condVars (frame : Nat) (av : Recv → Nat → Var) (c : Cond) : List Var :=
+  varsOf frame av c.a ++ varsOf frame av c.b
 
-def tgtVar (frame : Nat) : Tgt → Var
+/-- The object a receiver denotes in a frame with locals `env` and receiver object `self`. -/
+def objOf (env : Env) (self : Nat) : Recv → Nat
+  | .self => self
+  | .l i => (lookup env i).toNat
+
+def tgtVar (frame : Nat) (env : Env) (self : Nat) : Tgt → Var
   | .l i => ⟨frame, i⟩
   | .g i => ⟨globalScope, i⟩
+  | .at r i => ⟨objScope (objOf env self r), i⟩
 
-/-- Interpreter state: the trace (newest first), module globals, frame counter, frame → code object. -/
+/-- Variables read to find the stored-to location (`self` in `self.a = …`). -/
+def tgtUses (frame : Nat) : Tgt → List Var
+  | .at r _ => [recvVar frame r]
+  | _ => []
+
+/-- Interpreter state: the trace (newest first), module globals, frame counter, frame → code object,
+instance attributes (`attrKey`), object counter, object → class, positions of the executed implicit
+`return None` steps. -/
 structure St where
   rev : List Ev
   gl : Env
   nextFrame : Nat
   codeOf : List (Nat × Nat)
+  heap : Env
+  nextObj : Nat
+  clsOf : List (Nat × Nat)
+  retNone : List Nat
 
 def St.emit (st : St) (e : Ev) : St := { st with rev := e :: st.rev }
 
-def store (tg : Tgt) (v : Int) (env : Env) (st : St) : Env × St :=
+def codeOfFn (tbl : List (Nat × Nat)) (s : Nat) : Nat := ((tbl.find? (·.1 == s)).map (·.2)).getD 0
+
+def clsDefault (classes : List Cls) (c i : Nat) : Int :=
+  match classes[c]? with
+  | some k => ((k.defaults.find? (·.2.1 == i)).map (·.2.2)).getD 0
+  | none => 0
+
+/-- Python's attribute lookup on an instance: the instance dictionary first, then the class.
+(An attribute that exists nowhere reads `0` here; CPython would raise — the generator gives every
+attribute a class-level default and the values are compared with CPython's on every case.) -/
+def attrVal (p : Prog) (st : St) (o i : Nat) : Int :=
+  if has st.heap (attrKey o i) then lookup st.heap (attrKey o i)
+  else clsDefault p.classes (codeOfFn st.clsOf o) i
+
+def attrVar (st : St) (o i : Nat) : Var :=
+  if has st.heap (attrKey o i) then ⟨objScope o, i⟩ else ⟨clsScope (codeOfFn st.clsOf o), i⟩
+
+def store (tg : Tgt) (v : Int) (env : Env) (self : Nat) (st : St) : Env × St :=
   match tg with
   | .l i => (update env i v, st)
   | .g i => (env, { st with gl := update st.gl i v })
+  | .at r i => (env, { st with heap := update st.heap (attrKey (objOf env self r) i) v })
 
 def bindParams (vals : List Int) : Env := vals.zipIdx.map (fun p => (p.2, p.1))
 
-/-- Big-step execution of a statement list in frame `frame` whose statements are controlled by the
-executed branches `anc`.  `none` = out of fuel / unknown function. -/
-def execBlock (funs : List Fun) (carried : Bool) :
-    Nat → Bool → Nat → List Nat → List Stmt → Env → St → Option (Env × St)
-  | 0, _, _, _, _, _, _ => none
-  | _ + 1, _, _, _, [], env, st => some (env, st)
-  | fuel + 1, again, frame, anc, s :: rest, env, st =>
+/-- What the three call-like statements have in common. -/
+structure CallSpec where
+  ln : Nat
+  tg : Option Tgt
+  f : Option Nat                    -- the code that runs (`none`: class without `__init__`)
+  args : List Expr
+  selfObj : Nat                     -- receiver object of the new frame (`0`: module function)
+  selfUses : Option (List Var)      -- what `self` is bound from (`none`: no `self`)
+  callUses : List Var               -- what selects the callee (the receiver of a method call)
+  created : Option (Nat × Nat)      -- object creation: (object, class)
+
+def callSpec (p : Prog) (frame : Nat) (env : Env) (self : Nat) (st : St) : Stmt → Option CallSpec
+  | .call ln tg f args =>
+    match p.funs[f]? with
+    | some fn => if fn.cls == 0 then some ⟨ln, some tg, some f, args, 0, none, [], none⟩ else none
+    | none => none
+  | .mcall ln tg r f args =>
+    let o := objOf env self r
+    match p.funs[f]? with
+    | some fn =>
+      -- monomorphic fragment: `f` must be a method of the receiver's class
+      if o != 0 && fn.cls == codeOfFn st.clsOf o + 1 then
+        some ⟨ln, tg, some f, args, o, some [recvVar frame r], [recvVar frame r], none⟩
+      else none
+    | none => none
+  | .new ln tg c args =>
+    match p.classes[c]? with
+    | some k =>
+      let o := st.nextObj
+      some ⟨ln, some tg, k.init, args, o, some [⟨objScope o, refName⟩], [], some (o, c)⟩
+    | none => none
+  | _ => none
+
+/-- Big-step execution of a statement list in frame `frame` (receiver object `self`, `0` = none)
+whose statements are controlled by the executed branches `anc`.  `none` = out of fuel / unknown
+function / ill-formed call. -/
+def execBlock (p : Prog) (carried : Bool) :
+    Nat → Bool → Nat → Nat → List Nat → List Stmt → Env → St → Option (Env × St)
+  | 0, _, _, _, _, _, _, _ => none
+  | _ + 1, _, _, _, _, [], env, st => some (env, st)
+  | fuel + 1, again, frame, self, anc, s :: rest, env, st =>
     let pend := !anc.isEmpty
+    let hp : Recv → Nat → Int := fun r i => attrVal p st (objOf env self r) i
+    let av : Recv → Nat → Var := fun r i => attrVar st (objOf env self r) i
     match s with
     | .asg ln tg e =>
-      let st1 := st.emit ⟨ln, nodeOf frame ln, [tgtVar frame tg], varsOf frame e, false, anc, pend⟩
-      let r := store tg (eval env st.gl e) env st1
-      execBlock funs carried fuel false frame anc rest r.1 r.2
+      let st1 := st.emit ⟨ln, nodeOf frame ln, [tgtVar frame env self tg],
+                          varsOf frame av e ++ tgtUses frame tg, false, anc, pend⟩
+      let r := store tg (eval env st.gl hp e) env self st1
+      execBlock p carried fuel false frame self anc rest r.1 r.2
     | .ite ln c a b =>
-      let st1 := st.emit ⟨ln, nodeOf frame ln, [], condVars frame c, true, anc, pend⟩
-      let br := if evalCmp c.op (eval env st.gl c.a) (eval env st.gl c.b) then a else b
-      match execBlock funs carried fuel false frame (nodeOf frame ln :: anc) br env st1 with
+      let st1 := st.emit ⟨ln, nodeOf frame ln, [], condVars frame av c, true, anc, pend⟩
+      let br := if evalCmp c.op (eval env st.gl hp c.a) (eval env st.gl hp c.b) then a else b
+      match execBlock p carried fuel false frame self (nodeOf frame ln :: anc) br env st1 with
       | none => none
-      | some r => execBlock funs carried fuel false frame anc rest r.1 r.2
+      | some r => execBlock p carried fuel false frame self anc rest r.1 r.2
     | .wh ln c a =>
       -- `carried = false` mirrors pynguin on single-block loop bodies: only the first evaluation of the
       -- loop test acts as the controlling branch of the body (see the known finding in Props/C09)
-      let st1 := st.emit ⟨ln, nodeOf frame ln, [], condVars frame c, carried || !again,
+      let st1 := st.emit ⟨ln, nodeOf frame ln, [], condVars frame av c, carried || !again,
                           nodeOf frame ln :: anc, true⟩
-      if evalCmp c.op (eval env st.gl c.a) (eval env st.gl c.b) then
-        match execBlock funs carried fuel false frame (nodeOf frame ln :: anc) a env st1 with
+      if evalCmp c.op (eval env st.gl hp c.a) (eval env st.gl hp c.b) then
+        match execBlock p carried fuel false frame self (nodeOf frame ln :: anc) a env st1 with
         | none => none
-        | some r => execBlock funs carried fuel true frame anc (s :: rest) r.1 r.2
-      else execBlock funs carried fuel false frame anc rest env st1
-    | .call ln tg f args =>
-      match funs[f]? with
+        | some r => execBlock p carried fuel true frame self anc (s :: rest) r.1 r.2
+      else execBlock p carried fuel false frame self anc rest env st1
+    | s' =>
+      match callSpec p frame env self st s' with
       | none => none
-      | some fn =>
-        let fr := st.nextFrame
-        let vals := args.map (eval env st.gl)
-        -- the call itself (controls everything executed in the new frame) …
-        let st0 := st.emit ⟨ln, callNode fr, [], [], true, anc, pend⟩
-        -- … and one parameter binding per argument
-        let binds : List Ev := args.zipIdx.map (fun a =>
-          ⟨ln, nodeOf frame ln, [⟨fr, a.2⟩], varsOf frame a.1, false, anc, pend⟩)
-        let st1 := { st0 with rev := binds.reverse ++ st0.rev,
-                              nextFrame := fr + 1, codeOf := (fr, f + 2) :: st.codeOf }
-        match execBlock funs carried fuel false fr [callNode fr] fn.body (bindParams vals) st1 with
-        | none => none
-        | some r =>
-          let st2 := r.2.emit ⟨fn.retLn, nodeOf fr fn.retLn, [⟨fr, retName⟩], varsOf fr fn.ret,
+      | some sp =>
+        let ln := sp.ln
+        -- object creation: defines the reference of the new object
+        let stA : St := match sp.created with
+          | some (o, c) =>
+            { st.emit ⟨ln, nodeOf frame ln, [⟨objScope o, refName⟩], [], false, anc, pend⟩ with
+              nextObj := o + 1, clsOf := (o, c) :: st.clsOf,
+              codeOf := (objScope o, objScope o) :: st.codeOf }
+          | none => st
+        match sp.f with
+        | none =>
+          match sp.tg with
+          | none => execBlock p carried fuel false frame self anc rest env stA
+          | some tg =>
+            let st3 := stA.emit ⟨ln, nodeOf frame ln, [tgtVar frame env self tg],
+                                 [⟨objScope sp.selfObj, refName⟩] ++ tgtUses frame tg, false, anc, pend⟩
+            let r' := store tg (Int.ofNat sp.selfObj) env self st3
+            execBlock p carried fuel false frame self anc rest r'.1 r'.2
+        | some f =>
+          match p.funs[f]? with
+          | none => none
+          | some fn =>
+            let fr := stA.nextFrame
+            let vals := sp.args.map (eval env st.gl hp)
+            -- the call itself (controls everything executed in the new frame) …
+            let st0 := stA.emit ⟨ln, callNode fr, [], sp.callUses, true, anc, pend⟩
+            -- … one binding of `self` and one parameter binding per argument
+            let selfBind : List Ev := match sp.selfUses with
+              | some us => [⟨ln, nodeOf frame ln, [⟨fr, selfName⟩], us, false, anc, pend⟩]
+              | none => []
+            let binds : List Ev := selfBind ++ sp.args.zipIdx.map (fun a =>
+              ⟨ln, nodeOf frame ln, [⟨fr, a.2⟩], varsOf frame av a.1, false, anc, pend⟩)
+            let st1 := { st0 with rev := binds.reverse ++ st0.rev,
+                                  nextFrame := fr + 1, codeOf := (fr, f + 2) :: st0.codeOf }
+            match execBlock p carried fuel false fr sp.selfObj [callNode fr] fn.body (bindParams vals) st1 with
+            | none => none
+            | some r =>
+              let hp' : Recv → Nat → Int := fun q i => attrVal p r.2 (objOf r.1 sp.selfObj q) i
+              let av' : Recv → Nat → Var := fun q i => attrVar r.2 (objOf r.1 sp.selfObj q) i
+              -- `return e`, or the implicit `return None` on the last statement's line
+              let st2 : St :=
+                if fn.void then
+                  { r.2.emit ⟨fn.retLn, nodeOf fr fn.retLn, [⟨fr, retName⟩], [], false, [callNode fr], true⟩
+                    with retNone := r.2.rev.length :: r.2.retNone }
+                else r.2.emit ⟨fn.retLn, nodeOf fr fn.retLn, [⟨fr, retName⟩], varsOf fr av' fn.ret,
                                false, [callNode fr], true⟩
-          let st3 := st2.emit ⟨ln, nodeOf frame ln, [tgtVar frame tg], [⟨fr, retName⟩], false, anc, pend⟩
-          let r' := store tg (eval r.1 r.2.gl fn.ret) env st3
-          execBlock funs carried fuel false frame anc rest r'.1 r'.2
+              let rv : Int := match sp.created with
+                | some _ => Int.ofNat sp.selfObj
+                | none => if fn.void then 0 else eval r.1 r.2.gl hp' fn.ret
+              let resUses : List Var := match sp.created with
+                | some _ => [⟨objScope sp.selfObj, refName⟩]
+                | none => [⟨fr, retName⟩]
+              match sp.tg with
+              | none => execBlock p carried fuel false frame self anc rest env st2
+              | some tg =>
+                let st3 := st2.emit ⟨ln, nodeOf frame ln, [tgtVar frame env self tg],
+                                     resUses ++ tgtUses frame tg, false, anc, pend⟩
+                let r' := store tg rv env self st3
+                execBlock p carried fuel false frame self anc rest r'.1 r'.2
 
-/-- The test case as statements of the main frame (`int_k` is local `k`, all on line `0`). -/
+/-- The test case as statements of the main frame (`x_k` is local `k`, all on line `0`). -/
 def testStmts (test : List TStmt) : List Stmt :=
   test.zipIdx.map (fun p => match p.1 with
     | .const n => Stmt.asg 0 (.l p.2) (.k n)
-    | .call f args => Stmt.call 0 (.l p.2) f (args.map Expr.l))
+    | .call f args => Stmt.call 0 (.l p.2) f (args.map Expr.l)
+    | .new c args => Stmt.new 0 (.l p.2) c (args.map Expr.l)
+    | .mcall o f args => Stmt.mcall 0 (some (.l p.2)) (.l o) f (args.map Expr.l)
+    | .attr o i => Stmt.asg 0 (.l p.2) (.at (.l o) i))
 
-/-- Module import: `G<i> = n` and `def f` lines, in line order. -/
+/-- Structural insertion sort by line (reduces in the kernel, unlike `List.mergeSort`). -/
+def insertByLine (x : Nat × List Var) : List (Nat × List Var) → List (Nat × List Var)
+  | [] => [x]
+  | y :: ys => if x.1 ≤ y.1 then x :: y :: ys else y :: insertByLine x ys
+
+def sortByLine (l : List (Nat × List Var)) : List (Nat × List Var) := l.foldr insertByLine []
+
+/-- Module import: `G<i> = n`, `def f`, `class C` and class-level `a<i> = n` lines, in line order. -/
 def importEvents (p : Prog) : List Ev :=
   let gs := p.ginit.map (fun t => (t.1, [(⟨globalScope, t.2.1⟩ : Var)]))
   let fs := p.funs.map (fun f => (f.defLn, ([] : List Var)))
-  let all := (gs ++ fs).mergeSort (fun a b => a.1 ≤ b.1)
+  let cs := p.classes.zipIdx.flatMap (fun k =>
+    (k.1.ln, ([] : List Var)) :: k.1.defaults.map (fun t => (t.1, [(⟨clsScope k.2, t.2.1⟩ : Var)])))
+  let all := sortByLine (gs ++ fs ++ cs)
   all.map (fun t => ⟨t.1, nodeOf 0 t.1, t.2, [], false, [], false⟩)
 
 structure Result where
   trace : Trace
-  vals : List Int
-  crits : List Nat          -- per test statement: position of the step storing `int_k`
+  vals : List Int           -- per test statement (objects: their number, `None`: 0)
+  crits : List Nat          -- per test statement: position of the step storing `x_k`
   acrits : List Nat         -- per asserted statement: position of the assertion's branch
   codeOf : List (Nat × Nat)
+  retNone : List Nat        -- positions of the executed implicit `return None` steps
 
 /-- Execute the test statement by statement (so the criteria positions are known). -/
-def runTest (funs : List Fun) (carried : Bool) (asserts : List Nat) (fuel : Nat) :
+def runTest (p : Prog) (carried : Bool) (asserts : List Nat) (fuel : Nat) :
     List (Stmt × Nat) → Env → St → List Nat → List Nat → Option (Env × St × List Nat × List Nat)
   | [], env, st, cs, acs => some (env, st, cs.reverse, acs.reverse)
   | (s, k) :: rest, env, st, cs, acs =>
-    match execBlock funs carried fuel false mainFrame [] [s] env st with
+    match execBlock p carried fuel false mainFrame 0 [] [s] env st with
     | none => none
     | some r =>
       let pos := r.2.rev.length - 1
       if asserts.contains k then
         let st' := r.2.emit ⟨0, nodeOf mainFrame 0, [], [⟨mainFrame, k⟩], true, [], false⟩
-        runTest funs carried asserts fuel rest r.1 st' (pos :: cs) ((pos + 1) :: acs)
-      else runTest funs carried asserts fuel rest r.1 r.2 (pos :: cs) acs
+        runTest p carried asserts fuel rest r.1 st' (pos :: cs) ((pos + 1) :: acs)
+      else runTest p carried asserts fuel rest r.1 r.2 (pos :: cs) acs
 
 def run (p : Prog) (fuel : Nat) (carried : Bool := true) : Option Result :=
   let imp := importEvents p
-  let st0 : St := ⟨imp.reverse, p.ginit.foldl (fun g t => update g t.2.1 t.2.2) [], 2, [(0, 0), (1, 1)]⟩
-  match runTest p.funs carried p.asserts fuel (testStmts p.test).zipIdx [] st0 [] [] with
+  let scopes := (List.range p.classes.length).map (fun c => (clsScope c, clsScope c))
+  let st0 : St := ⟨imp.reverse, p.ginit.foldl (fun g t => update g t.2.1 t.2.2) [], 2,
+                   scopes ++ [(0, 0), (1, 1)], [], 1, [], []⟩
+  match runTest p carried p.asserts fuel (testStmts p.test).zipIdx [] st0 [] [] with
   | none => none
   | some (env, st, cs, acs) =>
-    some ⟨st.rev.reverse, (List.range p.test.length).map (lookup env), cs, acs, st.codeOf⟩
-
-def codeOfFn (tbl : List (Nat × Nat)) (s : Nat) : Nat := ((tbl.find? (·.1 == s)).map (·.2)).getD 0
+    some ⟨st.rev.reverse, (List.range p.test.length).map (lookup env), cs, acs, st.codeOf, st.retNone⟩
 
 end PynguinModel.PyMini
